@@ -253,8 +253,12 @@ def load(reg):
         zero = {"TI": "self._n == 0", "CI": "self.g_cnt == 0 and self.g_sum == 0", "WI": "self._n == 0 and self.g_nz == 0",
                 "TWI": "self._n == 0 and self._active and isnan(self._start_time)"}[INV]
         plains = {"TI": ["Tally"], "CI": ["Counter"], "WI": ["WeightedTally"], "TWI": ["WeightedTally", "TimestampWeightedTally"]}[INV]
-        ONLY_DATA = "forall('e:ref:EventType', inset(e, self._event_types) == (e == %s))" % (
-            {"WI": "StatEvents.WEIGHT_DATA_EVENT", "TWI": "StatEvents.TIMESTAMP_DATA_EVENT"}.get(INV, DATA))
+        DTYPE = {"WI": "StatEvents.WEIGHT_DATA_EVENT", "TWI": "StatEvents.TIMESTAMP_DATA_EVENT"}.get(INV, DATA)
+        CPR, CET = "asref(producer, 'EventProducer')", "asref(event_type, 'EventType')"
+        WITHP = "(not isnone(producer) and not isnone(event_type))"
+        # the data types: the family's own data event, plus the type given at construction (with its producer)
+        ONLY_DATA = ("forall('e:ref:EventType', inset(e, self._event_types) == (e == %s or (%s and e == %s)))" % (DTYPE, WITHP, CET))
+        PARGS_OK = "((isnone(producer) and isnone(event_type)) or (instance(producer, 'EventProducer') and instance(event_type, 'EventType')))"
         pc = reg.contracts["EventProducer.__init__"]
         pc.for_classes = list(dict.fromkeys((pc.for_classes or ["EventProducer"]) + [base, cls]))
         # the plain constructor run on an event-producing subclass: its initialize() is the overriding one, which
@@ -272,11 +276,13 @@ def load(reg):
                      modifies=["self.*"], for_classes=[base, cls], props=C11, axiom_sets=AX)
         reg.contract(cls + ".__init__",
                      params={"key": "obj", "name": "obj", "simulator": "obj", "producer": "obj", "event_type": "obj"},
-                     # scope: construction without an initial data producer (listen_to has its own contract)
-                     requires=["isnone(producer) and isnone(event_type)",
-                               "implies(instance(simulator, 'SimulatorInterface'), PWF(%s) and %s != self)" % (SIM, SIM)],
-                     raises=[("TypeError", "not (%s)" % ARGS_OK),
-                             ("DSOLError", "%s and %s and has(%s._output_statistics, strval(key))" % (ARGS_OK, HASMODEL, MODEL))],
+                     # scope: without an initial data producer, or with producer AND event type (a producer alone is refused by
+                     # listen_to with a TypeError -- the documented default type is not applied -- and is outside this contract)
+                     requires=["(isnone(producer) and isnone(event_type)) or %s" % WITHP,
+                               "implies(instance(simulator, 'SimulatorInterface'), PWF(%s) and %s != self)" % (SIM, SIM),
+                               "implies(instance(producer, 'EventProducer'), PWF(%s) and %s != self)" % (CPR, CPR)],
+                     raises=[("TypeError", "not (%s and %s)" % (ARGS_OK, PARGS_OK)),
+                             ("DSOLError", "%s and %s and %s and has(%s._output_statistics, strval(key))" % (ARGS_OK, PARGS_OK, HASMODEL, MODEL))],
                      on_raise="any",
                      ensures=["%s(self)" % INV, "PWF(self)", "map_empty(self._listeners)", zero, ONLY_DATA,
                               # subscribed to the simulator's warm-up notification
@@ -284,10 +290,12 @@ def load(reg):
                              # a persistent statistic also listens for the end of the replication (to close itself)
                              (["has(%s._listeners, %s) and contains(get(%s._listeners, %s), self)" % (SIM, ENDREP, SIM, ENDREP)]
                               if INV == "TWI" else []) + [
+                              # listening to the initial producer for the given type
+                              "implies(%s, has(%s._listeners, %s) and contains(get(%s._listeners, %s), self))" % (WITHP, CPR, CET, CPR, CET),
                               # retrievable from the model under its key
                               "implies(%s, has(%s._output_statistics, strval(key))"
                               " and get(%s._output_statistics, strval(key)) == self)" % (HASMODEL, MODEL, MODEL)],
-                     modifies=["self.*", "%s._listeners" % SIM, "%s._output_statistics" % MODEL],
+                     modifies=["self.*", "%s._listeners" % SIM, "%s._output_statistics" % MODEL, "%s._listeners" % CPR],
                      props=C11, axiom_sets=AX + ("seqstr", "pmap"))
     reg.lemma("statistic_created_with_a_key_is_retrievable_under_it", """
 def retr(m, key, st, other):
@@ -322,3 +330,29 @@ def warm_first(w, e):
     assume(w._priority == SimEventInterface.MAX_PRIORITY and e._priority < SimEventInterface.MAX_PRIORITY)
     assert lt_e(ENTRY(w), ENTRY(e)), "the warm-up event is handed out before every lower-priority event of the same time"
 """, params={"w": "ref:SimEvent", "e": "ref:SimEvent"}, props=C11)
+
+
+_load_ss0 = load
+
+
+def load(reg):      # noqa: F811
+    """listen_to of the four simulation statistics: the statistic subscribes itself to the producer for the event type and treats
+    that type as data from now on; ill-typed arguments are refused with nothing changed."""
+    _load_ss0(reg)
+    C11 = ["C11"]
+    PR = "asref(producer, 'EventProducer')"
+    ET = "asref(event_type, 'EventType')"
+    for cls in ("SimCounter", "SimTally", "SimWeightedTally", "SimPersistent"):
+        reg.contract("%s.listen_to" % cls, params={"producer": "obj", "event_type": "obj"},
+                     requires=["implies(instance(producer, 'EventProducer'), PWF(%s))" % PR],
+                     raises=[("TypeError", "not instance(producer, 'EventProducer') or not instance(event_type, 'EventType')")],
+                     on_raise="unchanged",
+                     ensures=[
+                         # the type counts as data from now on; every type that did before still does
+                         "inset(%s, self._event_types)" % ET,
+                         "forall('e:ref:EventType', implies(e != %s, inset(e, self._event_types) == old(inset(e, self._event_types))))" % ET,
+                         # subscribed to the producer for that type (whole-map clause of add_listener for the rest)
+                         "PWF(%s)" % PR, "has(%s._listeners, %s) and contains(get(%s._listeners, %s), self)" % (PR, ET, PR, ET),
+                         "forall('k:ref:EventType', implies(k != %s, has(%s._listeners, k) == old(has(%s._listeners, k))"
+                         " and implies(old(has(%s._listeners, k)), get(%s._listeners, k) == old(get(%s._listeners, k)))))" % (ET, PR, PR, PR, PR, PR)],
+                     modifies=["self._event_types", "%s._listeners" % PR], props=C11, axiom_sets=("seqref",))
